@@ -60,12 +60,10 @@ pub fn metric_equations(d: &Digest, p: &PipeResult, s: StoreIx, m: &[usize; 8], 
     let [received, dropped, reduced, effect_issued, mw_executed, _state_notified, _sub_notified, errors] = *m;
     let nruns = runs.len();
     // received (not counting the shutdown marker)
-    let marker_ok = match policy {
-        Pol::DropLatest => received == nruns || received == nruns + 1,
-        _ => received == nruns + 1,
-    };
-    if !marker_ok {
-        viol.push(format!("store {}: action_received = {} but the reducer took {} actions (+1 for the shutdown marker{})", s, received, nruns, if policy == Pol::DropLatest { ", which DropLatest may discard" } else { "" }));
+    // whether the raw counter includes the shutdown marker is not part of the property ("not
+    // counting the shutdown marker"): both conventions are accepted
+    if !(received == nruns || received == nruns + 1) {
+        viol.push(format!("store {}: action_received = {} but the reducer took {} actions (at most +1 for the shutdown marker)", s, received, nruns));
     }
     // received + dropped = dispatched while open
     let shutdown = d.stores[s].first_shutdown_inv.unwrap_or(usize::MAX);
@@ -203,7 +201,7 @@ pub static C18: Profile = Profile {
     raw,
     build: c18_build,
     check: c18_check,
-    budget: Budget { r_cases: (2000, 30000), s_cases: (1000, 8000), s_scheds: (16, 64) },
+    budget: Budget { r_cases: (4000, 30000), s_cases: (2000, 8000), s_scheds: (16, 64) },
     liveness: false,
     enumerate: None,
     extra: None,
@@ -416,7 +414,7 @@ pub static C19: Profile = Profile {
     raw,
     build: c19_build,
     check: c19_check,
-    budget: Budget { r_cases: (1500, 20000), s_cases: (1500, 8000), s_scheds: (16, 64) },
+    budget: Budget { r_cases: (3000, 20000), s_cases: (3000, 8000), s_scheds: (16, 64) },
     liveness: false,
     enumerate: None,
     extra: None,
